@@ -5,6 +5,7 @@
 set -uo pipefail
 cd "$(dirname "$0")"; . ./env.sh
 ./trimcache.sh
+exec 9>/tmp/kmipsa-gocache.lock; flock -s 9   # compiling: the build cache must not be dropped meanwhile
 P=$(readlink -f "$1"); L=${2:-$(basename "$(dirname "$P")")}
 WT=/tmp/benignchk/$L-$$
 rm -rf "$WT"; mkdir -p /tmp/benignchk; rsync -a --exclude .git /repo/ "$WT/"
